@@ -64,10 +64,9 @@ Definition op_widths (o : opcode) : list nat :=
 
 (* Instruction::span = 1 + data span; hand transcription of instruction.rs:109-163, checked equal to
    the table generated from the source text (CompilerGen.gen_span_table) in C10Check.
-   NOTE the entry of NativeFunctionPointer: the source says `Instruction::StringLiteral.span()`
-   (= 5, opcode byte included) for the *data* span, so Instruction::span is 6, while the VM reads
-   one u32 (5 bytes in all).  [op_span] below is what the VM decodes; the two tables differ exactly
-   there (CompilerProofs.span_table_vs_vm). *)
+   The pinned tree gave NativeFunctionPointer a span of 6 (it added the opcode byte twice) while
+   the VM reads one u32 (5 bytes in all): repaired in /repo (d967380).  [op_span] below is what the VM
+   decodes; the two tables now agree everywhere (CompilerProofs.span_table_vs_vm). *)
 Definition span_table : list (opcode * nat) :=
   [(OpAdd, 1); (OpSub, 1); (OpMul, 1); (OpDiv, 1); (OpCallNative, 5); (OpScalarInt, 9);
    (OpScalarFloat, 9); (OpScalarNil, 1); (OpStringLiteral, 5); (OpCopyLast, 1); (OpExit, 1);
@@ -76,7 +75,7 @@ Definition span_table : list (opcode * nat) :=
    (OpClearStack, 1); (OpReturn, 1); (OpSwapLast, 1); (OpAnd, 1); (OpOr, 1); (OpXor, 1); (OpNot, 1);
    (OpGoto, 5); (OpGotoIfTrue, 5); (OpGotoIfFalse, 5); (OpInitTable, 1); (OpGetProperty, 1);
    (OpSetProperty, 1); (OpLen, 1); (OpBeginForEach, 21); (OpForEach, 21); (OpFunctionPointer, 9);
-   (OpNativeFunctionPointer, 6); (OpNthRow, 1); (OpAppendTable, 1); (OpPopTable, 1); (OpClosure, 9);
+   (OpNativeFunctionPointer, 5); (OpNthRow, 1); (OpAppendTable, 1); (OpPopTable, 1); (OpClosure, 9);
    (OpSetUpvalue, 5); (OpReadUpvalue, 5); (OpRegisterUpvalue, 3); (OpCloseUpvalue, 1)].
 
 Definition op_span (o : opcode) : nat := S (fold_right Nat.add O (op_widths o)).
